@@ -16,9 +16,11 @@ const (
 	verifSendValidated // a validated message is about to be handed to the event loop
 	verifSendBatch     // a message batch is about to be handed to the event loop
 	verifLoopEvent     // the event loop has received a peer / stream / wire event and not yet handled it
+	verifValidateTake  // a validation worker is about to take the next request from the validation queue
 )
 
 var (
+	verifYieldValFn       func(v *validation, point int)
 	verifYieldBatchFn     func(b *MessageBatch, point int)
 	verifYieldMsgFn       func(msg *Message, point int)
 	verifYieldQueueFn     func(q *rpcQueue, point int)
@@ -57,5 +59,11 @@ func verifYieldMsg(msg *Message, point int) {
 func verifYieldBatch(b *MessageBatch, point int) {
 	if f := verifYieldBatchFn; f != nil {
 		f(b, point)
+	}
+}
+
+func verifYieldVal(v *validation, point int) {
+	if f := verifYieldValFn; f != nil {
+		f(v, point)
 	}
 }
